@@ -159,8 +159,32 @@ def impl(c):
     return H.l2t_e2e(d['opts'], d['s'], True)
 
 
+_prelude_done = False
+
+
+def _prelude():
+    """once per worker process, BEFORE any judged conversion: another converter object is created and its own
+    database customised in place through the public API (equation and \\hspace no longer hidden).  Converters
+    created afterwards must not be affected: every LatexNodes2Text() gets a database of its own."""
+    global _prelude_done
+    if _prelude_done:
+        return
+    _prelude_done = True
+    from pylatexenc.latex2text import LatexNodes2Text, EnvironmentTextSpec, MacroTextSpec
+    try:
+        other = LatexNodes2Text()
+        other.latex_context.add_context_category(
+            'verif-other-converter', prepend=True,
+            environments=[EnvironmentTextSpec('equation', discard=False), EnvironmentTextSpec('align*', discard=False)],
+            macros=[MacroTextSpec('hspace', discard=False), MacroTextSpec('label', discard=False)])
+        other.latex_to_text('\\begin{equation}x\\end{equation}\\hspace{1cm}')
+    except Exception:
+        pass
+
+
 def oracle(c):
     from pylatexenc.latex2text import LatexNodes2Text
+    _prelude()
     d = c['desc']
     o = d['opts']
     try:
